@@ -27,11 +27,14 @@ def check_value(acc, a5, n, strings=None):
         up = a5.hex_to_u64(s.upper())
         pad = a5.hex_to_u64('000' + s)
         pad16 = a5.hex_to_u64(s.rjust(16, '0'))
+        # upper case is accepted letter by letter: the two alternating-case spellings and an upper-case padded one
+        mixed = [a5.hex_to_u64(''.join(ch.upper() if (i + o) % 2 else ch for i, ch in enumerate(s))) for o in (0, 1)]
+        mixed.append(a5.hex_to_u64('0' + s.upper()))
     except Exception as e:
-        acc.violation(f'c19:parse-raises:{n:#x}', f'upper-case / zero-padded spelling raised {e!r}', case)
+        acc.violation(f'c19:parse-raises:{n:#x}', f'upper-case / mixed-case / zero-padded spelling raised {e!r}', case)
         return
-    if up != n or pad != n or pad16 != n:
-        acc.violation(f'c19:parse:{n:#x}', f'upper-case / padded spellings parse to {up}, {pad}, {pad16}', case)
+    if up != n or pad != n or pad16 != n or any(m != n for m in mixed):
+        acc.violation(f'c19:parse:{n:#x}', f'upper-case / padded / mixed-case spellings parse to {up}, {pad}, {pad16}, {mixed}', case)
         return
     if strings is not None:
         strings.add(s)
